@@ -196,7 +196,7 @@ func Scenario(c Cfg) {
 					return nil
 				}
 			}
-			if Bit(c.Mask, x) {
+			if (x < 62 && Bit(c.Mask, x)) || (c.FailFrom > 0 && x >= c.FailFrom) {
 				return Fail(x)
 			}
 			return nil
